@@ -789,6 +789,9 @@ class Generator(AbstractODSGenerator):
         return f'=HYPERLINK("#{self.get_in_out_sheet_name(transaction.asset)}.a{row}:z{row}"; "{value}")'
 
     def __get_hyperlinked_summary_value(self, asset: str, value: Any, year: int) -> Any:
+        if _AssetAndYear(asset, year) not in self.__tax_sheet_year_2_row:
+            # This may occur if command line time filters are activated
+            return value
         row: int = self.__tax_sheet_year_2_row[_AssetAndYear(asset, year)]
         if isinstance(value, (RP2Decimal, int, float)):
             return f'=HYPERLINK("#{self.get_tax_sheet_name(asset)}.a{row}:z{row}"; {value})'
